@@ -37,7 +37,7 @@ ASSUMPTIONS = [
     "LMDB backend over /verif/shim; SQL = SQLite",
 ]
 MIN_NONTRIVIAL = {"quick": 3000, "thorough": 30000}
-REQUIRED_COUNTERS = ["pairs.definitely_open_must", "pairs.definitely_closed", "pairs.nonmatching", "agreement.compared"]
+REQUIRED_COUNTERS = ["pairs.definitely_open_must", "pairs.definitely_closed", "pairs.nonmatching", "agreement.compared", "cases_with_output_validator"]
 SHARD_TIMEOUT = {"quick": 600, "thorough": 3200}
 
 
@@ -102,7 +102,12 @@ async def run_case(backend, seed, counters, coverage):
     u = gen.Universe(seed)
     nconn, pool, actions = gen_case(r, u)
     exec_delay = (lambda: r.choice([0, 0, 0.001, 0.003])) if r.random() < 0.5 else None
-    rig = R.Rig(backend=backend, config={"analysis_delay": 0}, exec_delay=exec_delay)
+    cfg = {"analysis_delay": 0}
+    if seed % 3 == 0:
+        # an output validator is configured (it lets everything through): who receives what must not change
+        cfg["output_validator"] = "vf.ov.check"
+        counters["cases_with_output_validator"] = counters.get("cases_with_output_validator", 0) + 1
+    rig = R.Rig(backend=backend, config=cfg, exec_delay=exec_delay)
     await rig.start()
     viols, nontrivial = [], []
     pairs = counters.setdefault("pairs", {})
